@@ -50,8 +50,16 @@ Section Opt.
                 | _ => [TStr]
                 end
          end.
+  (* the work-list of _optimize_union (D32 repair): an Optional member contributes a Null and is replaced by its payload; a
+     union member (which can only sit under such an Optional) is replaced by its members, in place *)
+  Fixpoint members_deep (t : ty) : list ty :=
+    match t with
+    | TOpt x => TNull :: members_deep x
+    | TUnion us => (fix go l := match l with [] => [] | x :: r => members_deep x ++ go r end) us
+    | x => [x]
+    end.
   Definition regroup (ts : list ty) : list ty :=
-    let '(strs, objs, lists, dicts, other) := fold_left split_step ts ([], [], [], [], []) in
+    let '(strs, objs, lists, dicts, other) := fold_left split_step (flat_map members_deep ts) ([], [], [], [], []) in
     let other := if existsb (ty_eqb TInt) other && existsb (ty_eqb TFloat) other
                  then remove_first (ty_eqb TInt) other else other in
     let other := other ++ (match objs with [] => [] | _ => [TObj (merge_field_sets ptr_eq objs)] end) in
